@@ -1,6 +1,8 @@
 (* C12/Fits.v — byte accounting of reply(): the allowedLength formula, the
-   "(XX more messages)" reserve, colour 0, cuts inside colour sequences.
-   Each clause: proved on its decidable domain, refuted by a witness outside. *)
+   "(XX more messages)" reserve, FormatContext.size, cuts inside colour sequences.
+   After the repairs F12/F13/F41/F42 the first and third clause hold in full,
+   the second up to 99 pending messages; the colour/digit junction (F14) is
+   still refuted. *)
 From Coq Require Import List NArith ZArith Bool Lia ZifyBool Arith.
 Import ListNotations.
 Require Import Base.Wire Base.PyStr C12.Model C12.Wrap C12.More.
@@ -10,7 +12,7 @@ Open Scope N_scope.
 Lemma T_line_max : gen.T12.LINE_MAX = 512. Proof. reflexivity. Qed.
 Lemma T_fixed : gen.T12.FIXED_OVERHEAD = 14. Proof. reflexivity. Qed.
 Lemma T_nicksep : blen gen.T12.NICK_SEP = 2 /\ slen gen.T12.NICK_SEP = 2. Proof. split; reflexivity. Qed.
-Lemma T_reserve : gen.T12.MORE_RESERVE = 19. Proof. reflexivity. Qed.
+Lemma T_reserve : gen.T12.MORE_RESERVE = 21. Proof. reflexivity. Qed.
 Lemma T_more : blen gen.T12.MORE_ONE = 12 /\ blen gen.T12.MORE_MANY = 13. Proof. split; reflexivity. Qed.
 
 (* ---------- ASCII strings: characters = bytes ---------- *)
@@ -39,39 +41,24 @@ Qed.
 Lemma blen_strip ch s : blen (strip ch s) <= blen s.
 Proof. unfold strip. pose proof (blen_rstrip ch (lstrip ch s)). pose proof (blen_lstrip ch s). lia. Qed.
 
-(* ---------- clause 1: the allowedLength formula ---------- *)
-(* Full statement: forall k p, blen p <= allowedLength -> the relayed line fits 512 bytes.
-   Violated by the pinned code when prefix/target/nick are not ASCII (len() counts
-   characters: F41) and in a private query whose sender nick is longer than what was
-   reserved for msg.args[0] (F42). *)
-Definition cmd_of (k : cfg) : str := if negb (c_public k) && c_noticePriv k then s_notice else s_privmsg.
-
-Definition env_ok (k : cfg) : bool :=
-  ascii (c_prefix k) && ascii (c_arg0 k) && ascii (c_nick k) && (c_length k =? 0) &&
-  (c_public k ||
-   (blen (c_nick k) + blen (cmd_of k)
-    <=? blen (c_arg0 k) + 7 + (if c_prefixNick k then blen (c_nick k) + 2 else 0))).
-
-Theorem line_fits_on_domain : forall k p,
-  env_ok k = true -> nonempty (strip [1] p) = true ->
+(* ---------- clause 1: the allowedLength formula (full since the F41/F42 repair) ---------- *)
+(* Whatever the prefix, target and nick (any code points), in a channel or in a query:
+   a payload within allowedLength gives a relayed line within 512 bytes.  (c_length = 0:
+   the bot computes the budget itself; a configured length is the administrator's choice.) *)
+Theorem line_fits_full : forall k p,
+  c_length k = 0 -> nonempty (strip [1] p) = true ->
   (Z.of_N (blen p) <= allowed_length k)%Z ->
   line_fits k (makeReply k p) = true.
 Proof.
-  intros k p He Hne Hp. unfold env_ok in He.
-  repeat (apply andb_true_iff in He as [He ?]).
-  rename H into Hpriv, H0 into Hlen, H1 into Hn, H2 into Ha, He into Hpre.
-  apply N.eqb_eq in Hlen.
+  intros k p Hlen Hne Hp.
   unfold allowed_length in Hp. rewrite Hlen in Hp. cbn [N.eqb] in Hp.
-  rewrite <- (ascii_blen _ Hpre), <- (ascii_blen _ Ha), <- (ascii_blen _ Hn) in Hp.
   destruct T_nicksep as [Hns1 Hns2]. rewrite Hns2, T_line_max, T_fixed in Hp.
   pose proof (blen_strip [1] p) as Hst.
   remember (strip [1] p) as sp eqn:Es.
   destruct sp as [|c0 sp']; [discriminate|].
   unfold line_fits, relayed, makeReply. rewrite <- Es. rewrite T_line_max. apply N.leb_le.
-  unfold cmd_of in *.
   destruct (c_public k), (c_prefixNick k), (c_noticePriv k);
     cbn [andb negb orb] in *;
-    try (apply N.leb_le in Hpriv);
     repeat (rewrite ?blen_app; cbn [blen]); rewrite ?blen_app, ?Hns1;
     change (blen s_privmsg) with 7 in *; change (blen s_notice) with 6 in *;
     change (clen 32) with 1; change (clen 58) with 1; change (clen 13) with 1; change (clen 10) with 1;
@@ -83,64 +70,100 @@ Definition k_nonascii : cfg :=
 Definition k_private : cfg :=
   Cfg [98; 33; 117; 64; 104] [98] [97; 108; 105; 99; 101] false false false true 0 50 1.  (* query from alice to b *)
 
-Theorem line_fits_refuted :
-  (exists k p, env_ok k = false /\ c_public k = true /\ nonempty (strip [1] p) = true /\
-               (Z.of_N (blen p) <= allowed_length k)%Z /\ line_fits k (makeReply k p) = false) /\
-  (exists k p, env_ok k = false /\ c_public k = false /\ nonempty (strip [1] p) = true /\
-               (Z.of_N (blen p) <= allowed_length k)%Z /\ line_fits k (makeReply k p) = false).
-Proof.
-  split.
-  - exists k_nonascii, (repeat 121 491). repeat split; try (vm_compute; reflexivity). vm_compute. discriminate.
-  - exists k_private, (repeat 121 492). repeat split; try (vm_compute; reflexivity). vm_compute. discriminate.
-Qed.
-
+(* the two old refuting environments now meet the hypotheses and fit *)
+Definition y490 : str := repeat 121 490.
+Definition y488 : str := repeat 121 488.
 Example line_fits_nonvacuous :
-  env_ok (Cfg [98; 33; 117; 64; 104] [35; 99] [97] true true true true 0 50 1) = true /\
-  env_ok (Cfg [98; 33; 117; 64; 104] [98] [97] false true true true 0 50 1) = true.
-Proof. split; reflexivity. Qed.
+  (Z.of_N (blen y490) <= allowed_length k_nonascii)%Z /\
+  line_fits k_nonascii (makeReply k_nonascii y490) = true /\
+  (Z.of_N (blen y488) <= allowed_length k_private)%Z /\
+  line_fits k_private (makeReply k_private y488) = true.
+Proof. repeat split; vm_compute; try reflexivity; discriminate. Qed.
 
 (* ---------- clause 2: the "(XX more messages)" reserve ---------- *)
-(* Full statement: forall n >= 1, blen (suffix n n) <= MORE_RESERVE.  Holds only for n = 1. *)
-Lemma dec_go_len fuel : forall n acc, blen acc < blen (dec_go (S fuel) n acc).
+(* Full statement: forall n >= 1, blen (suffix n n) <= MORE_RESERVE.  Since the F12 repair
+   (reserve = len + 3) it holds for every count the text "(XX ...)" provides for, 1..99;
+   a three-digit count is still one byte over. *)
+Definition suffix_ok (n : N) : bool := blen (suffix n n) <=? gen.T12.MORE_RESERVE.
+
+Lemma suffix_table : forallb suffix_ok (map N.of_nat (seq 1 99)) = true.
+Proof. vm_compute. reflexivity. Qed.
+
+Theorem suffix_reserve_on_domain : forall n, 1 <= n <= 99 -> blen (suffix n n) <= gen.T12.MORE_RESERVE.
 Proof.
-  induction fuel as [|f IH]; intros n acc.
-  - cbn [dec_go]. assert (Hc : clen (48 + n mod 10) = 1).
-    { unfold clen. pose proof (N.mod_upper_bound n 10). destruct (48 + n mod 10 <? 128) eqn:E; [reflexivity|lia]. }
-    destruct (n / 10 =? 0); cbn [blen]; rewrite Hc; lia.
-  - change (dec_go (S (S f)) n acc) with
-      (let acc' := (48 + n mod 10) :: acc in if n / 10 =? 0 then acc' else dec_go (S f) (n / 10) acc').
-    cbv zeta. pose proof (clen_bounds (48 + n mod 10)).
-    destruct (n / 10 =? 0); [cbn [blen]; lia|].
-    specialize (IH (n / 10) ((48 + n mod 10) :: acc)). cbn [blen] in IH. lia.
+  intros n Hn. pose proof suffix_table as H. rewrite forallb_forall in H.
+  assert (Hin : In n (map N.of_nat (seq 1 99))).
+  { apply in_map_iff. exists (N.to_nat n). split; [lia|]. apply in_seq. lia. }
+  specialize (H n Hin). unfold suffix_ok in H. apply N.leb_le in H. exact H.
 Qed.
 
-Lemma dec_len n : 1 <= blen (dec n).
-Proof. unfold dec. pose proof (dec_go_len (N.size_nat n) n []). cbn [blen] in H. lia. Qed.
+Theorem suffix_reserve_refuted : exists n, 99 < n /\ gen.T12.MORE_RESERVE < blen (suffix n n).
+Proof. exists 100. split; [lia|]. vm_compute. reflexivity. Qed.
 
-Theorem suffix_reserve_on_domain : blen (suffix 1 1) = gen.T12.MORE_RESERVE.
-Proof. reflexivity. Qed.
+(* ---------- clause 3: FormatContext.size covers what start() and end() add (full since F13) ---------- *)
+Definition small (o : option N) : Prop := match o with Some n => n < 100 | None => True end.
 
-Theorem suffix_reserve_refuted : forall n, 2 <= n -> gen.T12.MORE_RESERVE < blen (suffix n n).
+Lemma str2_len n : n < 100 -> 1 <= blen (str2 n) <= 2.
 Proof.
-  intros n Hn. unfold suffix. assert (E : (n =? 1) = false) by lia. rewrite E.
-  rewrite !blen_app. destruct T_more as [_ Hm]. rewrite Hm, T_reserve.
-  pose proof (dec_len n). cbn [blen]. change (clen 32) with 1. change (clen 2) with 1.
-  change (clen 40) with 1. change (clen 41) with 1. lia.
+  intro H. unfold str2. destruct (n <? 10) eqn:E; cbn [blen].
+  - assert (clen (48 + n) = 1) as -> by (unfold clen; destruct (48 + n <? 128) eqn:E2; [reflexivity|lia]). lia.
+  - assert (n / 10 < 10) by (apply N.div_lt_upper_bound; lia).
+    pose proof (N.mod_upper_bound n 10).
+    assert (clen (48 + n / 10) = 1) as -> by (unfold clen; destruct (48 + n / 10 <? 128) eqn:E2; [reflexivity|lia]).
+    assert (clen (48 + n mod 10) = 1) as -> by (unfold clen; destruct (48 + n mod 10 <? 128) eqn:E2; [reflexivity|lia]). lia.
 Qed.
 
-(* ---------- clause 3: every chunk of ircutils.wrap fits its length ---------- *)
+Lemma zfill2_len n : n < 100 -> blen (zfill2 n) = 2.
+Proof.
+  intro H. unfold zfill2. destruct (n <? 10) eqn:E.
+  - cbn [blen]. assert (clen (48 + n) = 1) as -> by (unfold clen; destruct (48 + n <? 128) eqn:E2; [reflexivity|lia]). reflexivity.
+  - pose proof (str2_len n H). unfold str2 in *. rewrite E in *. cbn [blen] in *.
+    pose proof (clen_bounds (48 + n / 10)). pose proof (clen_bounds (48 + n mod 10)). lia.
+Qed.
+
+Theorem context_size_covers : forall c s,
+  small (fg c) -> small (bg c) -> blen (fend c (fstart c s)) <= blen s + fsize c.
+Proof.
+  intros [f b bo re ul] s Hf Hb. cbn [fg bg] in Hf, Hb.
+  unfold fend, factive, fstart, fsize, isset. cbn [fg bg fbold frev ful].
+  change gen.T12.SIZE_BOTH with 6. change gen.T12.SIZE_ONE with 3.
+  destruct f as [f|], b as [b|]; cbn [small] in Hf, Hb;
+    try (pose proof (zfill2_len f Hf)); try (pose proof (zfill2_len b Hb)); try (pose proof (str2_len f Hf));
+    destruct bo, re, ul; cbn [b2n truthy orb];
+    repeat match goal with |- context [negb (?x =? 0)] => destruct (x =? 0) end; cbn [negb orb];
+    match goal with |- _ <= _ + ?x => let v := eval vm_compute in x in change x with v end;
+    repeat (rewrite ?blen_app; cbn [blen]);
+    change (clen 2) with 1; change (clen 3) with 1; change (clen 15) with 1; change (clen 22) with 1;
+    change (clen 31) with 1; change (clen 44) with 1; change (clen 48) with 1; lia.
+Qed.
+
+Example context_size_colour0 :
+  let c := FC (Some 0) None false false false in
+  fsize c = 5 /\ blen (fend c (fstart c [97])) = 4.
+Proof. split; reflexivity. Qed.
+
+(* ---------- clause 4: every chunk of ircutils.wrap fits its length ---------- *)
 (* Full statement: forall s n ls, wrap s n = Ok ls -> Forall (fun c => blen c <= n) ls.
-   Refuted by colour 0 (F13): size()/end() test bool(fg), start() tests `is not None`. *)
-Definition s_color0 : str := 3 :: 48 :: repeat 97 30 ++ 32 :: repeat 98 30.     (* \x030 a*30 ' ' b*30 *)
+   Colour 0 no longer refutes it (F13 repaired); it is still refuted when a chunk that
+   starts with ",digit" is re-opened after a colour prefix (F14, left as a known finding):
+   the re-parsed context gains a background the size estimate never saw. *)
+Definition s_comma : str :=                     (* \x034aaaaaaa ,5bbbbbb ccccccc *)
+  3 :: 52 :: repeat 97 7 ++ 32 :: 44 :: 53 :: repeat 98 6 ++ 32 :: repeat 99 7.
 
 Theorem chunk_fits_refuted :
-  exists s ls, wrap s 32 = Ok ls /\ Exists (fun c => 32 < blen c) ls.
+  exists s ls, wrap s 12 = Ok ls /\ Exists (fun c => 12 < blen c) ls.
 Proof.
-  exists s_color0. eexists. split; [vm_compute; reflexivity|].
-  apply Exists_cons_tl. apply Exists_cons_hd. vm_compute. reflexivity.
+  exists s_comma. eexists. split; [vm_compute; reflexivity|].
+  do 4 apply Exists_cons_tl. apply Exists_cons_hd. vm_compute. reflexivity.
 Qed.
 
-(* ---------- clause 4: the visible text is unchanged ---------- *)
+(* the old colour-0 witness now fits *)
+Definition s_color0 : str := 3 :: 48 :: repeat 97 30 ++ 32 :: repeat 98 30.     (* \x030 a*30 ' ' b*30 *)
+Example chunk_fits_colour0 :
+  exists ls, wrap s_color0 32 = Ok ls /\ forallb (fun c => blen c <=? 32) ls = true.
+Proof. eexists. split; vm_compute; reflexivity. Qed.
+
+(* ---------- clause 5: the visible text is unchanged ---------- *)
 (* Full statement: forall s n ls, wrap s n = Ok ls -> concat (map visible ls) = visible (munge s).
    Refuted when an unbreakable word is cut inside \x03NN (F14). *)
 Definition s_junction : str := repeat 97 10 ++ [3; 49; 50; 98; 32; 99].        (* a*10 \x0312 b ' ' c *)
@@ -148,21 +171,3 @@ Definition s_junction : str := repeat 97 10 ++ [3; 49; 50; 98; 32; 99].        (
 Theorem visible_text_refuted :
   exists s ls, wrap s 16 = Ok ls /\ concat (map visible ls) <> visible (munge s).
 Proof. exists s_junction. eexists. split; [vm_compute; reflexivity|]. vm_compute. discriminate. Qed.
-
-(* ---------- clause 5: digits that int() rejects after \x03 lose the whole reply (F40) ---------- *)
-Theorem wrap_total_refuted :
-  exists s, has_surrogate s = false /\ forall n, wrap s n = Raise ValueError.
-Proof. exists [3; 178]. split; [reflexivity|]. intro n. reflexivity. Qed.
-
-(* ---------- end to end: a plain ASCII reply in an ASCII environment overflows ---------- *)
-Definition k_plain : cfg :=
-  Cfg [98; 33; 117; 64; 104] [35; 99] [97] true true true true 0 50 1.        (* b!u@h, #c, a *)
-
-Theorem message_fits_refuted :
-  exists k s sent L, env_ok k = true /\ ascii s = true /\ reply k s = Ok (sent, L) /\
-                     Exists (fun line => line_fits k line = false) (sent ++ rev L).
-Proof.
-  exists k_plain, (repeat 121 1200). eexists. eexists.
-  split; [reflexivity|]. split; [vm_compute; reflexivity|]. split; [vm_compute; reflexivity|].
-  apply Exists_cons_hd. vm_compute. reflexivity.
-Qed.
